@@ -106,6 +106,9 @@ func genValue(r *Rng, aux *ast.Schema, t *ast.Type, depth int) interface{} {
 			if !f.Type.NonNull && r.Chance(1, 2) {
 				continue
 			}
+			if f.Type.NonNull && f.DefaultValue != nil && r.Chance(1, 2) {
+				continue // legal: the field has a default
+			}
 			if f.Type.NonNull && r.Chance(1, 15) {
 				continue // defect: missing required
 			}
